@@ -2,7 +2,7 @@
  * urlencoded variant with '+' -> space) on every input up to BUF_N bytes, malformed escapes literal. */
 void harness(void) {
   HAVOC_BUFS;
-  sv_t input; input.n = nondet_size(); MAKE_SV(input);
+  ND_SV(input);
   char ref[BUF_N + 1];
   size_t rn = ref_percent_decode(input, ref, 0);
   size_t fp = 0; while (fp < input.n && input.p[fp] != '%') fp++;
